@@ -123,7 +123,9 @@ func (v *VerifShard) Select(sql string, fields map[string]influxql.DataType, dim
 	opt.Sources = stmt.Sources
 	opt.StartTime = tr.MinTimeNano()
 	opt.EndTime = tr.MaxTimeNano()
-	qs := executor.NewQuerySchema(stmt.Fields, stmt.ColumnNames(), &opt, nil)
+	// the constructor the select path uses (executor/select.go): it also normalises the order of pre-aggregation
+	// statements without GROUP BY to ascending
+	qs := executor.NewQuerySchemaWithSources(stmt.Fields, stmt.Sources, stmt.ColumnNames(), &opt, nil)
 	info := &VerifSelectInfo{MatchPreAgg: qs.MatchPreAgg(), HasCall: qs.HasCall(), Columns: stmt.ColumnNames()}
 
 	ctx := context.Background()
